@@ -509,7 +509,7 @@ func FuzzRoundTrip(f *testing.F) {
 		if err != nil || !fix {
 			return
 		}
-		if _, _, err := oracle.Parse(src); err != nil {
+		if !oracle.NodeStable(src) {
 			return
 		}
 		h.Eval("Fuzz")
